@@ -234,6 +234,38 @@ def run(rep, tier, seed):
                 b.add('front-decompress', ' '.join(toks), o2, parse_model_bits, fails, dict(layer='schc', op='schc-decompress', schc=s, contexts=[dict(stack=stacks[k], rules=nctxs[k]) for k in range(nctx)]), key=' '.join(toks))
     b.run()
     shared_rulesets(rep, rng_for(seed, 'C15-shared'), tier)
+    zero_bit_packets(rep, rng_for(seed, 'C15-zero'), tier)
+
+
+def zero_bit_packets(rep, rnd, tier):
+    """a rule whose id is the empty buffer and that elides every field, on a packet without payload: the SCHC packet has ZERO bits (a Buffer
+    of length 0 is falsy in Python); the front end returns it like any other result, and it decompresses back"""
+    import packets as P
+    SCHC = load_front()
+    for i in range(12 if tier == 'quick' else 120):
+        stack, pkt = rnd.choice([x for x in P.minimal_packets(rnd) if x[0] in ('UDP', 'CoAP', 'SCTP', 'IPv6', 'IPv4')])
+        o = with_timeout(lambda: parser_for(stack).parse(Buffer(pkt, len(pkt) * 8)))
+        if o[0] != 'OK' or o[1].payload.length != 0:
+            continue
+        pd = o[1]
+        pd.direction = DI.UP
+        rule = gen_rule(rnd, pd, '', kinds=('ns',))
+        other = gen_rule(rnd, pd, '', kinds=('vs',))
+        ctxs = [Context(id='z', description='', interface_id='if0', parser_id=stack, ruleset=[rule])]
+        if i % 2:
+            ctxs.append(Context(id='y', description='', interface_id='if0', parser_id=stack, ruleset=[RuleDescriptor(id=mk('1'), field_descriptors=other.field_descriptors)]))
+        front = SCHC(ctxs)
+        out = obs_bits(with_timeout(lambda: front.compress(Buffer(pkt, len(pkt) * 8), 'if0')))
+        rep.count('front-zero-bit-packet', key=('zb', i))
+        rep.oracle_evals += 1
+        case = dict(layer='schc', op='front-zero-bit', stack=stack, packet=pkt.hex(), rule=n_rule(rule))
+        if out != ('OK', ''):
+            rep.violation('property', 'a rule with the empty id that elides every field of a packet without payload: the front end gave %s instead of the zero-bit SCHC packet' % (str(out)[:80],), case)
+            return
+        back = obs_bits(with_timeout(lambda: front.decompress(mk('', R), 'if0')))
+        if back != ('OK', b2s(pkt)):
+            rep.violation('property', 'the zero-bit SCHC packet does not decompress back through the front end: %s' % (str(back)[:80],), case)
+            return
 
 
 def shared_rulesets(rep, rnd, tier):
